@@ -14,6 +14,8 @@ OBLIGATIONS = [
     (P + "segmentation_independent_scgi", "SCGI: for all byte streams (malformed included) the connection's fate is independent of the segmentation"),
     (P + "fcgi_buffer_eq_stream", "FastCGI: record reader over the read-ahead cache (cache_start_/cache_end_, compaction, padding) + dispatch + PARAMS/STDIN reassembly + keep-alive = function of the concatenated stream"),
     (P + "segmentation_independent_fcgi", "FastCGI: segmentation independence for all byte streams, whole keep-alive connections"),
+    (P + "http_buffer_eq_stream", "HTTP: read-ahead buffer + generated parser::step() with getc/ungetc + total_read_ + body drained once + keep-alive leftovers = stream-level result whenever header sections fit the 16 KiB cap"),
+    (P + "segmentation_independent_http", "HTTP: segmentation independence for all byte streams whose header sections fit the cap (the unrestricted statement is false of the code and recorded as such)"),
 ]
 OBLIGATIONS_FILE = os.path.join(HERE, "c01_obligations.json")
 if os.path.exists(OBLIGATIONS_FILE):
@@ -57,7 +59,7 @@ def gen_cases(c, scale):
                 parts.append(enc[api])
             d = b"".join(parts)
             for segs in segmentations(rng, d, 2):
-                cases.append(Case(api, "hc", segs, tag=f"keepalive{k}"))
+                cases.append(Case(api, "hc", segs, tag=f"keepalive{k}", nreq=k))
     return cases
 
 
@@ -111,6 +113,8 @@ def main():
                 diffs.append(x)
             if len(x.reads) >= 2 and " ready=0" not in x.impl:
                 c.nontrivial.add((x.api, x.data(), tuple(x.reads)))
+            if x.nreq is not None and f" ready={x.nreq} " not in x.impl + " ":
+                bad.append((x, f"keep-alive connection: {x.nreq} well-formed requests were sent, the applications ran {x.impl.split('ready=')[1].split()[0]} times"))
             if x.absreq is not None:
                 l = view_judge_line(x)
                 if l is None:
